@@ -173,6 +173,17 @@ class MergerConfig:
             return SetMergeOpts.from_str(self.config["defaults"]["sets"])
         return SetMergeOpts.UNIQUE
 
+    def has_merge_rule(self, node_coord: NodeCoords) -> bool:
+        """
+        Indicate whether a user-defined merge rule applies to a node.
+
+        Parameters:
+        1. node_coord (NodeCoords) The node for which to query.
+
+        Returns:  (bool) True = a [rules] entry matches the node
+        """
+        return bool(self._get_rule_for(node_coord))
+
     def aoh_merge_key(
         self, node_coord: NodeCoords, data: dict
     ) -> str:
